@@ -1146,6 +1146,26 @@ def gen_cases(ctx):
                 channels=ch, ssize=ss, nframes=nfr, latency=rng.choice([352, 704]), seq0=rnd_seq0(),
                 start_ts=rng.randrange(1 << 33), pa=rng.randrange(1, 250), pb=rng.randrange(251),
                 proto=rng.choice(["v1", "v2", "v2cipher"]), source=spec)))
+    # M. send_audio twice on ONE StreamClient (its finally clears the backlog): the second stream exceeds the backlog
+    #    size and its sequence numbers overlap those of the first; every one of the most recent 1000 packets must be
+    #    retransmittable (one request over the whole backlog, some partial ones, one in mid-stream)
+    for rep in range(1 if not ctx.thorough else 4):
+        m = rng.randrange(300, 900)                 # data packets of the first stream
+        extra = rng.randrange(20, 120)
+        a0 = rng.randrange(SEQMOD)
+        back = rng.randrange(200, 900)
+        s0 = (a0 - back) % SEQMOD
+        n2 = 1000 + extra + 1                       # + one silence packet
+        last = (s0 + n2 - 1) % SEQMOD
+        reqs = [[None, retransmit_req((last - 999) % SEQMOD, 1000)],
+                [None, retransmit_req((s0 + back - 5) % SEQMOD, 200)],
+                [None, retransmit_req((last - 1005) % SEQMOD, 20)],
+                [1000 + extra // 2, retransmit_req((s0 + extra // 2) % SEQMOD, 1000)]]
+        cases.append(("reused-client", default_case(
+            channels=1, ssize=1, nframes=(1000 + extra) * FPP - 2 * rng.randrange(0, 176), latency=352, seq0=s0,
+            proto=rng.choice(["v1", "v2"]), pa=rng.randrange(1, 250), pb=rng.randrange(251), requests=reqs,
+            prev=[{"nframes": m * FPP, "seq0": a0, "pa": rng.randrange(1, 250), "pb": rng.randrange(251),
+                   "reuse_client": True, "teardown_reset": rep % 2 == 0}])))
     # G. more than 1000 packets: the backlog evicts, requests for evicted and retained packets
     for extra in ([7] if not ctx.thorough else [0, 1, 7, 300, 1500]):
         nfr = (1000 + extra) * FPP - 5
@@ -1171,6 +1191,7 @@ def small_cases(ctx):
     from pyatv.protocols.raop.fifo import PacketFifo
     rng = ctx.rng
     terms = []
+    viols = []
     for n in range(0, 10):
         for _ in range(3):
             data = bytes(rng.randrange(256) for _ in range(n))
@@ -1197,7 +1218,37 @@ def small_cases(ctx):
                 raised = "ZeroDivisionError"
             terms.append("SmFifo %s %s %s %s" % (common.cN(lim), common.clist(ops, common.cN),
                                                   common.clist(list(f), common.cN), common.copt(raised)))
-    return terms
+        # fifo(lim) filled, cleared (what send_audio does after a stream), refilled past lim with keys that overlap the
+        # earlier ones: the most recent lim keys must be there
+        for _ in range(10 if not ctx.thorough else 50):
+            n1 = rng.randrange(0, 2 * lim + 3)
+            a0 = rng.randrange(0, 12)
+            ops1 = [a0 + i for i in range(n1)]
+            n2 = rng.randrange(lim, 3 * lim + 4)
+            b0 = max(0, a0 + rng.randrange(-lim - 1, n1 + 2))
+            ops2 = [b0 + i for i in range(n2)]
+            f = PacketFifo(lim)
+            raised = None
+            try:
+                for k in ops1:
+                    f[k] = bytes([k])
+                f.clear()
+                for k in ops2:
+                    f[k] = bytes([k])
+            except Exception as ex:
+                raised = EXN.get(type(ex).__name__, "ZeroDivisionError")
+            keys = list(f)
+            if not all(f[k] == bytes([k]) for k in keys):
+                raised = "ZeroDivisionError"
+            if raised is None and keys != ops2[-lim:]:
+                viols.append(("C16:backlog:most-recent-lost",
+                              "PacketFifo(%d): after inserting %s, clear() and inserting %s the backlog holds %s instead of "
+                              "the most recent %d keys %s" % (lim, ops1, ops2, keys, lim, ops2[-lim:]),
+                              {"fifo": {"limit": lim, "first": ops1, "second": ops2}}))
+            terms.append("SmFifoClear %s %s %s %s %s" % (common.cN(lim), common.clist(ops1, common.cN),
+                                                        common.clist(ops2, common.cN), common.clist(keys, common.cN),
+                                                        common.copt(raised)))
+    return terms, viols
 
 
 def domain_facts(ctx):
@@ -1320,7 +1371,9 @@ def run(ctx):
                       "From PV Require Import Common.Cases C16.Model C16.Long.\nOpen Scope N_scope.\n"
                       "Definition cases : list olong := [\n%s\n].\n"
                       "Eval vm_compute in (bad_indices check_long cases).\n" % t))
-    sm = small_cases(ctx)
+    sm, sm_viols = small_cases(ctx)
+    for key, text, rep in sm_viols:
+        ctx.violation(key, text, rep)
     for t in sm:
         ctx.case(t, nontrivial=True)
     ctx.count("small", len(sm))
@@ -1366,6 +1419,19 @@ def run(ctx):
 
 def replay(ctx, path):
     d = json.load(open(path))
+    if "replay" in d and "fifo" in d["replay"]:
+        from pyatv.protocols.raop.fifo import PacketFifo
+        spec = d["replay"]["fifo"]
+        f = PacketFifo(spec["limit"])
+        for k in spec["first"]:
+            f[k] = bytes([k])
+        f.clear()
+        for k in spec["second"]:
+            f[k] = bytes([k])
+        want = spec["second"][-spec["limit"]:]
+        print("PacketFifo(%d): insert %s, clear(), insert %s -> keys %s, most recent expected %s" % (
+            spec["limit"], spec["first"], spec["second"], list(f), want))
+        return 0 if list(f) == want else 1
     case = default_case(**(d["replay"]["case"] if "replay" in d else d["case"]))
     history = run_case(case)
     print("case=%s" % json.dumps({k: v for k, v in case.items() if k != "requests"}, sort_keys=True))
